@@ -1,6 +1,6 @@
 """C12 — receiver queries (stop token, custom query CPOs) reach all children.
 Theorems: coq/Properties_C12_calc.v; tie: K2 (every leaf logs what it observes through its receiver)."""
-import k2
+import k2, k2v2
 LEVEL = "proof"
 def run(chk, replay=None):
     chk.cov["trusted_base"] = [
@@ -11,3 +11,4 @@ def run(chk, replay=None):
     chk.cov["rule"] = "K2: generated adaptor stacks over leaves that log the answers of their receiver; non-trivial = has with_query_value/unstoppable/when_all/stop_when on the path"
     chk.prove()
     k2.standard_k2(chk)
+    k2v2.standard_k2v2(chk)   # second-generation model Calc2 (lifetimes, contexts, more algorithms): tie (theorems: Properties_*_calc2.v)
